@@ -47,6 +47,9 @@ def run_noloss(case):
     # packets may have crossed another wire before: their current_time field carries a stale stamp
     for pkt, stale in zip(pkts, case.get("prestamp", [])):
         pkt.current_time = stale
+    # and they were created some time before they reach this wire (queues, earlier hops): creation time != entry time
+    for pkt, age in zip(pkts, case.get("ages", [])):
+        pkt.time = pkt.time - age
     lab.run()
     ins, outs = entry.recs, out.recs
     if len(calls) != len(ins):
@@ -77,6 +80,8 @@ def run_noloss(case):
         classes.add("own delay decides")
     if any(d == 0 for _, d in calls):
         classes.add("zero delay")
+    if any(a for a in case.get("ages", [])[:len(ins)]):
+        classes.add("packet older than its entry into the wire")
     if case["loss_rate"] == 0:
         classes.add("loss rate 0")
     return {"nontrivial": clamp > 0 and free > 1, "classes": sorted(classes)}
@@ -466,7 +471,8 @@ def noloss_strategy(tier):
             dl = st.lists(st.sampled_from([0.0, 0.001, 0.01, 0.1, 0.3, 0.7, 1.1, 2.5]), min_size=1, max_size=8)
         wl = netlab.workload([0, 1], n_max=50 if big else 25, exact=exact, min_size=3, late=True)
         return st.fixed_dictionaries({"exact": st.just(exact), "delays": dl, "wl": wl, "loss_rate": st.sampled_from([None, None, 0]),
-                                      "prestamp": st.lists(st.sampled_from([0, 0, 0.5, 100, 3]), max_size=10)})
+                                      "prestamp": st.lists(st.sampled_from([0, 0, 0.5, 100, 3]), max_size=10),
+                                      "ages": st.lists(st.sampled_from([0, 0.5, 2, 8, 0.125, 100]), max_size=10)})
     return kgen.weighted([(build(True), 3), (build(False), 1)])
 
 
@@ -504,7 +510,8 @@ PROP = Property(
           "loss rate (draw pinned to 0.5) applies to both directions."),
     facets=[
         Facet("noloss", noloss_strategy, run_noloss, quick=1200, thorough=8000,
-              essential=["held back by predecessor (clamp)", "own delay decides", "zero delay"]),
+              essential=["held back by predecessor (clamp)", "own delay decides", "zero delay",
+                         "packet older than its entry into the wire"]),
         Facet("loss", loss_strategy, run_loss, quick=600, thorough=4000,
               essential=["constant draw below p", "constant draw above p", "seeded draws", "loss rate 1", "some lost, some delivered"]),
         Facet("loss_varying", loss_varying_strategy, run_loss_varying, quick=600, thorough=4000,
